@@ -247,6 +247,9 @@ class World:
                         if isinstance(v, PyClass) and v is not base and v.issubclass(base):
                             subs.append(v)
             self._value_subs = subs
+        if name == "type":
+            # every concrete kind defines type(): for a value of unknown kind the name is an unknown string
+            return Builtin("opaque.type", lambda it, a, k, n: it.fresh_str("typename"))
         if obj.cls.lookup(name) is None:
             raise OutOfSubset(f"kind split needed: attribute '{name}' read on an opaque value at `{anchor(node) if node is not None else ''}`")
         excluded = obj.fields["__opaque__"]
